@@ -18,7 +18,7 @@ impl Req {
     }
 }
 
-fn cut(rng: &mut Rng, data: &[u8], style: u64) -> Vec<Vec<u8>> {
+pub fn cut(rng: &mut Rng, data: &[u8], style: u64) -> Vec<Vec<u8>> {
     if data.is_empty() { return vec![]; }
     match style {
         0 => vec![data.to_vec()],
